@@ -65,6 +65,7 @@ def run_avm(prog, ctx_desc, routine_info=None, max_steps=200000):
         return o
     except avm.Timeout:
         o.dropped = "avm_timeout"
+        o.status = "timeout"
         return o
     except G.ParseError as e:
         o.dropped = None
